@@ -17,13 +17,16 @@
 EXTENDS GlobMatch
 
 (* does the single tagged token t match path[a+1..b] (0-based cut points a <= b) in context *)
-RECURSIVE RunSeg(_, _, _, _)
-RunSeg(cfg, seg, atStart, mode) ==
-  IF seg = <<>> THEN \E s \in cfg : NullSeq(s, atStart, mode, FALSE)
-  ELSE RunSeg(Step(cfg, Head(seg), atStart, FALSE), Tail(seg), FALSE, mode)
+(* strict = FALSE: the documented (liberal) reading; strict = TRUE: exits of a tree wildcard decided by its *)
+(* tags (used with the implementation-shaped tags of KnownFindings for attribution only)                  *)
+RECURSIVE RunSeg(_, _, _, _, _)
+RunSeg(cfg, seg, atStart, mode, strict) ==
+  IF seg = <<>> THEN \E s \in cfg : NullSeq(s, atStart, mode, strict)
+  ELSE RunSeg(Step(cfg, Head(seg), atStart, strict), Tail(seg), FALSE, mode, strict)
 
-MatchesSpan(t, path, a, b) ==
-  RunSeg({<<t>>}, SubSeq(path, a + 1, b), a = 0, IF b = Len(path) THEN "end" ELSE "mid")
+MatchesSpanS(t, path, a, b, strict) ==
+  RunSeg({<<t>>}, SubSeq(path, a + 1, b), a = 0, IF b = Len(path) THEN "end" ELSE "mid", strict)
+MatchesSpan(t, path, a, b) == MatchesSpanS(t, path, a, b, FALSE)
 
 CapOK(t, seg, c) ==
   IF t.k = "tree"
@@ -33,22 +36,23 @@ CapOK(t, seg, c) ==
   ELSE c.some /\ c.s = seg
 
 (* TT: tagged top-level token sequence; caps: 1-based, caps[1] is capture 0 *)
-RECURSIVE Segment(_, _, _, _, _, _)
-Segment(TT, path, caps, j, a, ci) ==   \* ci: index in caps of the next capturing token's capture
+RECURSIVE Segment(_, _, _, _, _, _, _)
+Segment(TT, path, caps, j, a, ci, strict) ==   \* ci: index in caps of the next capturing token's capture
   IF j > Len(TT) THEN a = Len(path)
   ELSE \E b \in a..Len(path) :
-         /\ MatchesSpan(TT[j], path, a, b)
+         /\ MatchesSpanS(TT[j], path, a, b, strict)
          /\ IF Capturing(TT[j])
-            THEN CapOK(TT[j], SubSeq(path, a + 1, b), caps[ci]) /\ Segment(TT, path, caps, j + 1, b, ci + 1)
-            ELSE Segment(TT, path, caps, j + 1, b, ci)
+            THEN CapOK(TT[j], SubSeq(path, a + 1, b), caps[ci]) /\ Segment(TT, path, caps, j + 1, b, ci + 1, strict)
+            ELSE Segment(TT, path, caps, j + 1, b, ci, strict)
 
 NCap(TT) == Len(SelectSeq(TT, Capturing))
 
 (* "ok" or the name of the first clause that fails *)
-CaptureVerdict(TT, path, caps) ==
+CaptureVerdictS(TT, path, caps, strict) ==
   IF Len(caps) # NCap(TT) + 2 THEN "count"
   ELSE IF ~(caps[1].some /\ caps[1].s = path) THEN "capture0_is_not_the_path"
   ELSE IF caps[Len(caps)].some THEN "capture_beyond_last_index"
   ELSE IF TT = <<>> THEN (IF path = <<>> THEN "ok" ELSE "empty_glob_nonempty_path")
-  ELSE IF Segment(TT, path, caps, 1, 0, 2) THEN "ok" ELSE "no_segmentation_explains_captures"
+  ELSE IF Segment(TT, path, caps, 1, 0, 2, strict) THEN "ok" ELSE "no_segmentation_explains_captures"
+CaptureVerdict(TT, path, caps) == CaptureVerdictS(TT, path, caps, FALSE)
 =============================================================================
